@@ -72,6 +72,8 @@ CUSTOM = {
     "U_DINUC_M": ("dinuc", ["kappa", "G"], "monomer", False),
     "U_DINUC_C": ("dinuc", ["kappa", "G"], "conditional", False),
     "U_DINUC_NS": ("dinuc", ["A>G", "C>T", "G"], "general", False),
+    "U_DINUC_PS": ("dinuc", ["kappa", "G"], "monomers", False),  # position-specific monomer probabilities
+    "U_CODON_PS": ("codon", ["kappa", "omega"], "monomers", False),  # ... on a word alphabet that is not all k-mers
 }
 for _k, _v in CUSTOM.items():
     F.MODELS.setdefault(_k, _v)
@@ -135,9 +137,13 @@ def make_model(name, kw=None, bins=None):
             m = ns.NonReversibleNucleotide(
                 predicates=[MotifChange("R", "Y", forward_only=True), MotifChange("A", "G", forward_only=True),
                             MotifChange("C", "T", forward_only=True)], optimise_motif_probs=False, **common)
-        elif name in ("U_DINUC_T", "U_DINUC_M", "U_DINUC_C"):
-            mp = {"T": "tuple", "M": "monomer", "C": "conditional"}[name[-1]]
+        elif name in ("U_DINUC_T", "U_DINUC_M", "U_DINUC_C", "U_DINUC_PS"):
+            mp = {"_T": "tuple", "_M": "monomer", "_C": "conditional", "PS": "monomers"}[name[-2:]]
             m = sm.TimeReversibleDinucleotide(predicates=[kappa, cg], mprob_model=mp, **common)
+        elif name == "U_CODON_PS":
+            from cogent3.evolve import models as _models
+
+            m = sm.TimeReversibleCodon(predicates=[_models._kappa, _models._omega], mprob_model="monomers", **common)
         elif name == "U_DINUC_NS":
             m = ns.NonReversibleDinucleotide(
                 predicates=[MotifChange("A", "G", forward_only=True), MotifChange("C", "T", forward_only=True), cg],
@@ -333,6 +339,27 @@ def eig_condition(Q):
     return _COND[key]
 
 
+_RECON = {}
+
+
+def eigen_reconstruction_fails(Q):
+    """the documented precision test of the "checked" / "either" exponentiation settings (Q is rebuilt from its
+    eigen-decomposition and compared with numpy.allclose) fails by a wide margin (10x): the function must then have
+    used the Pade route, whose accuracy does not depend on the conditioning of the eigenvectors"""
+    key = Q.tobytes()
+    if key not in _RECON:
+        if len(_RECON) > 2000:
+            _RECON.clear()
+        try:
+            roots, evT = numpy.linalg.eig(Q)
+            ev = evT.T
+            reQ = numpy.inner(ev.T * roots, numpy.linalg.inv(ev)).real
+            _RECON[key] = bool((numpy.abs(Q - reQ) > 10 * (1e-8 + 1e-5 * numpy.abs(reQ))).any()) or not numpy.isfinite(reQ).all()
+        except Exception:  # noqa: BLE001
+            _RECON[key] = True
+    return _RECON[key]
+
+
 def check_config(spec, acc, report=True):
     """run one configuration; returns list of (sig, detail)"""
     fails = []
@@ -368,9 +395,15 @@ def check_config(spec, acc, report=True):
     wp = F.word_probs(kind, form, pi)
 
     # layer 0: motif probabilities reached the function unchanged
-    got_pi = numpy.asarray(lf.get_motif_probs().array, float)
-    if got_pi.shape != pi.shape or numpy.abs(got_pi - pi).max() > 1e-12:
-        fail(f"motif probs: get_motif_probs differs from the values set [{form}]", {"got": got_pi[:8], "want": pi[:8]})
+    if form == "monomers":
+        # position-specific monomer probabilities: reported per position; the values set are their word-probability form
+        mp = lf.get_motif_probs()
+        got_pi = numpy.array([numpy.asarray(mp[str(i)].array, float) for i in range(len(mp))])
+        want_pi = F.posn_monomer_probs(kind, pi)
+    else:
+        got_pi, want_pi = numpy.asarray(lf.get_motif_probs().array, float), pi
+    if got_pi.shape != want_pi.shape or numpy.abs(got_pi - want_pi).max() > 1e-12:
+        fail(f"motif probs: get_motif_probs differs from the values set [{form}]", {"got": got_pi[:8], "want": want_pi[:8]})
 
     psubs_by_bin = []
     kappa = 1.0  # worst eigenvector conditioning over the Q matrices involved
@@ -396,7 +429,11 @@ def check_config(spec, acc, report=True):
                 except Exception as ex:  # noqa: BLE001
                     fail(f"get_rate_matrix_for_edge raised {type(ex).__name__} [{bins_class(spec)}]", {"error": str(ex)[:200]})
             t = spec["lengths"][e] * rate
-            k = eig_condition(Q) * max(1.0, float(numpy.abs(Q).sum(axis=1).max()) * t)
+            scale = max(1.0, float(numpy.abs(Q).sum(axis=1).max()) * t)
+            if setting == "pade" or (setting in ("default expm", "either") and eigen_reconstruction_fails(Q)):
+                k = scale  # Pade route: no dependence on the eigenvector conditioning
+            else:
+                k = eig_condition(Q) * scale
             kappa = max(kappa, k)
             P = F.expm(Q * t)
             # layer 2: transition matrix
@@ -573,6 +610,10 @@ def lattice_for(kind, tier):
     return PAR_LATTICE[tier]
 
 
+def spec_is_directed_nuc(name, terms):
+    return F.MODELS[name][0] == "nuc" and {"T>C", "C>A", "A>G"} <= set(terms)
+
+
 def configs_for(name, model_kw, shape_index, ntips, tier, part):
     """all configurations of one (model variant, shape, part) cell"""
     kind, terms, form, eq = F.MODELS[name]
@@ -631,6 +672,17 @@ def configs_for(name, model_kw, shape_index, ntips, tier, part):
         if not model_kw:
             for ex in ("eigen", "checked", "pade", "either"):
                 out.append(dict(common, lengths=base_lengths(edges), params=pv, pi=pi, expm=ex))
+            if spec_is_directed_nuc(name, terms):
+                # nearly defective Q inside the parameter bounds: a one-way chain T>C>A>G with equal large rates, every
+                # other rate on the lower bound; only the fallback of the default ("either") setting gets exp(Qt) right
+                chain = {"T>C", "C>A", "A>G"}
+                for big in (1e3, 1e6):
+                    cv = {t: (big if t in chain else 1e-6) for t in terms}
+                    for ex in (None, "either", "pade"):
+                        c = dict(common, lengths=base_lengths(edges), params=cv, pi=pis[0])
+                        if ex:
+                            c["expm"] = ex
+                        out.append(c)
             if kind == "nuc":
                 Pd = [[0.7, 0.1, 0.1, 0.1], [0.05, 0.8, 0.05, 0.1], [0.2, 0.2, 0.5, 0.1], [0.25, 0.25, 0.25, 0.25]]
                 for e in (edges[0], edges[-1]):
@@ -672,9 +724,11 @@ def run_genetic_codes(spec, acc, tier):
 def shards(tier, seed):
     heavy, out = [], []
     # codon models first: they are the longest shards (61 states, model construction 1-4 s per process)
-    for name in F.CODON_MODELS:
+    for name in F.CODON_MODELS + [n for n in CUSTOM if F.MODELS[n][0] == "codon"]:
         for part in ("params", "lengths", "bins", "options"):
             if part == "bins" and name not in BIN_MODELS:
+                continue
+            if name in CUSTOM and part not in ("params", "lengths"):
                 continue
             nsplit = 1
             if part == "params":
@@ -684,7 +738,7 @@ def shards(tier, seed):
             for c in range(nsplit):
                 heavy.append({"family": "codon", "model": name, "kw": {}, "ntips": 2, "shape": 0, "part": part,
                               "chunk": c, "of": nsplit})
-        if tier == "thorough":
+        if tier == "thorough" and name not in CUSTOM:
             for si in range(2):
                 heavy.append({"family": "codon", "model": name, "kw": {}, "ntips": 3, "shape": si, "part": "codon3"})
     tipsets = [2, 3, 4] if tier == "quick" else [2, 3, 4, 5]
